@@ -126,4 +126,70 @@ example : OwnInactive 1 [⟨⟨1, 0⟩, 0, .down⟩, ⟨⟨2, 0⟩, 0, .alive⟩
   simp at hm
   rcases hm with h | h <;> subst h <;> simp_all [Member.active, Gen.isActive]
 
+/-- where the reply to a message may go: back to its sender, or — for the two relay legs — to the target the
+    peer named (outside the guarantee, as the property says) -/
+def ReplyDst (h : Header) (d : Id) : Prop :=
+  d = h.src ∨ (∃ n, h.msg = .pingReq d n) ∨ (∃ n, h.msg = .indirectAck d n)
+
+/-- what a reply stage emits: at most one datagram, to a `ReplyDst` -/
+def RepliesOK (h : Header) (c : Ctx) (r : R Unit) : Prop :=
+  match r with
+  | .ok _ c' => c'.eff = c.eff ∨ ∃ d b, c'.eff = c.eff ++ [.send d b] ∧ ReplyDst h d
+  | .err _ c' => c'.eff = c.eff
+  | .stuck _ => True
+
+/-- **Replies go to the sender.** Whatever the message (other than TurnUndead, which is not answered but acted upon),
+    the reaction sends at most one datagram, and it goes back to the sender of the message — whose address
+    `handle_data` has checked not to be the own address (`C19H.no_reply_to_own_address`) — or, for PingReq and
+    IndirectAck, to the relay target the peer named. -/
+theorem replies_go_to_the_sender (E : Env) (h : Header) (c : Ctx) (hm : h.msg ≠ .turnUndead) :
+    RepliesOK h c (reactToMessage E h c) := by
+  unfold reactToMessage RepliesOK
+  simp only [bind_run, getS_run]
+  have send : ∀ (d : Id) (m : Msg), ReplyDst h d →
+      (match sendMessage E d m c with
+        | .ok _ c' => c'.eff = c.eff ∨ ∃ d' b, c'.eff = c.eff ++ [.send d' b] ∧ ReplyDst h d'
+        | .err _ c' => c'.eff = c.eff
+        | .stuck _ => True) := by
+    intro d m hd
+    have hs := sendMessage_spec E d m c
+    cases hr : sendMessage E d m c with
+    | stuck x => trivial
+    | err e c' => rw [hr] at hs; exact hs.2.2
+    | ok u c' =>
+      rw [hr] at hs
+      obtain ⟨_, body, heff, _⟩ := hs
+      exact Or.inr ⟨d, _, heff, hd⟩
+  cases hmsg : h.msg with
+  | ping n => simp only []; exact send h.src _ (Or.inl rfl)
+  | ack n => simp
+  | pingReq target n =>
+    simp only []
+    by_cases hg : (target == c.s.id) = true
+    · simp [hg]
+    · simp only [hg, Bool.false_eq_true, if_false]
+      exact send target _ (Or.inr (Or.inl ⟨n, hmsg⟩))
+  | indirectPing origin n =>
+    simp only []
+    by_cases hg : (origin == c.s.id) = true
+    · simp [hg]
+    · simp only [hg, Bool.false_eq_true, if_false]
+      exact send h.src _ (Or.inl rfl)
+  | indirectAck target n =>
+    simp only []
+    by_cases hg : (target == c.s.id) = true
+    · simp [hg]
+    · simp only [hg, Bool.false_eq_true, if_false]
+      exact send target _ (Or.inr (Or.inr ⟨n, hmsg⟩))
+  | forwardedAck origin n =>
+    simp only []
+    by_cases hg : (origin == c.s.id) = true
+    · simp [hg]
+    · simp [hg]
+  | announce => simp only []; exact send h.src _ (Or.inl rfl)
+  | turnUndead => exact absurd hmsg hm
+  | gossip => simp
+  | feed => simp
+  | broadcast => simp
+
 end Foca.C19
